@@ -54,6 +54,11 @@ func c01Check(c *oracleCtx, src string, cfgs []string, generated bool) {
 					return
 				}
 				seen[out] = true
+				if codeHasHTMLCommentOpener(out) && !codeHasHTMLCommentOpener(src) {
+					input["output"] = oaClip(out, 600)
+					c.violation("html-comment-opener", "the output contains `<!--`, which a JavaScript script reads as a comment opener; the source does not", input)
+					return
+				}
 				ob, oerr := oracle.Behave(out)
 				c.bump("runs")
 				if oerr == nil && sb.Equal(ob) {
@@ -92,6 +97,13 @@ func c01Cfgs(c *oracleCtx, src string, cfgs []string) []string {
 }
 
 func oracleC01(c *oracleCtx) {
+
+	// directed sources: a sign operator directly followed by a sign-starting prefix operator, also through
+	// higher-precedence operators on the left spine (needed by seeded/C01-m1); every value is printed
+	for _, src := range c01SignSources() {
+		c01Check(c, src, c01Cfgs(c, src, []string{"c", "cm", "p:2020:1", "p:09:0"}), false)
+		c.count(src)
+	}
 	for _, in := range c.inputs {
 		if m := recordedInput(in); m != nil {
 			if s := oaStr(m, "src"); s != "" {
@@ -136,6 +148,31 @@ func oracleC01(c *oracleCtx) {
 		return
 	}
 	c01Witnesses(c)
+}
+
+// c01SignSources: executable programs around adjacent sign operators.
+func c01SignSources() []string {
+	var out []string
+	firsts := []string{"-b", "++b", "--b", "!b", "- -b", "- --b"}
+	his := []string{"*", "/", "%"}
+	for _, s := range []string{"+", "-"} {
+		for _, f := range firsts {
+			exprs := []string{"a " + s + " " + f, "x " + s + " y " + s + " " + f}
+			for _, h1 := range his {
+				exprs = append(exprs, "a "+s+" "+f+" "+h1+" c")
+				for _, h2 := range his {
+					exprs = append(exprs, "a "+s+" "+f+" "+h1+" c "+h2+" d")
+				}
+			}
+			for _, e := range exprs {
+				out = append(out, "let a = 7\nlet b = 3\nlet c = 2\nlet d = 5\nlet x = 11\nlet y = 4\nconsole.log("+e+")\nconsole.log(a, b)\n")
+			}
+		}
+	}
+	for _, rel := range []string{"<", ">", "<=", "=="} {
+		out = append(out, "let a = 7\nlet b = 3\nconsole.log(a "+rel+" !--b)\nconsole.log(a "+rel+" !- -b, b)\n")
+	}
+	return out
 }
 
 func c01Witnesses(c *oracleCtx) {
